@@ -234,6 +234,33 @@ def explore(name, level, seed):
     # depth 3: every unary operator on every depth-2 tree, and binary operators with the leaves
     sub = l2 if level >= 1 else l2[:: 4]
     l3 = grow(sub, l0, False)
+    # long sums (no size-dependent representation may change the meaning): left-deep chains of length 1..14 built
+    # from every cyclic pattern of three signed / scaled leaves, used as left and as right operand and added to themselves
+    import itertools
+    atoms = [("one", shared_one, (1, 0, 0), 1), ("v1", api.v1, (0, 1, 0), 1), ("v1", api.v1, (0, 1, 0), -1),
+             ("v2", api.v2, (0, 0, 1), 1), ("v2", api.v2, (0, 0, 1), 3), ("v1", api.v1, (0, 1, 0), p - 1)]
+    nlong = 0
+    for pat in itertools.product(range(len(atoms)), repeat=3):
+        acc, want, desc = api.m.zero(), (0, 0, 0), "0"
+        for L in range(14):
+            d, o, w, k = atoms[pat[L % 3]]
+            term = o if k == 1 else o * k
+            s_acc = api.snap(acc)
+            if k == -1:
+                acc2, want2 = acc - o, tuple(a - b for a, b in zip(want, w))
+            else:
+                acc2, want2 = acc + term, tuple(a + b * k for a, b in zip(want, w))
+            desc2 = desc + ("-" if k == -1 else "+") + d + ("" if k in (1, -1) else "*k")
+            check("chain " + desc2, acc2, want2, [(desc, acc, s_acc)], False)
+            acc, want, desc = acc2, want2, desc2
+            nlong += 1
+            if L in (3, 7, 8, 9, 13):
+                s_acc = api.snap(acc)
+                check("v2+(chain %s)" % desc, api.v2 + acc, tuple(a + b for a, b in zip((0, 0, 1), want)), [(desc, acc, s_acc)], False)
+                check("(chain %s)+(same chain)" % desc, acc + acc, tuple(2 * a for a in want), [(desc, acc, s_acc)], False)
+                check("(chain %s)-(same chain)" % desc, acc - acc, (0, 0, 0), [(desc, acc, s_acc)], False)
+                check("(chain %s)*(p-1)" % desc, acc * (p - 1), tuple(-a for a in want), [(desc, acc, s_acc)], False)
+    st["long_chain_steps"] = nlong
     # the shared leaves must still be what they were
     for d, o, w in leaves:
         f, junk = api.form(o)
@@ -296,7 +323,7 @@ def run(ctx):
     ctx.cov["distinct_outcomes"] = agg["distinct_forms"]
     ctx.cov["traces_validated_against_impl"] = agg["trees"]
     ctx.cov["exhaustive"] = True
-    ctx.cov["rule"] = ("expression trees over leaves zero/one/v1/v2/shared v1 with + - neg and 9 scalars: ALL trees of depth <= 2 "
+    ctx.cov["rule"] = ("expression trees over leaves zero/one/v1/v2/shared v1 with + - neg and 9 scalars (and left-deep sums of up to 14 terms with repeated wires, for every cyclic pattern of three signed / scaled leaves): ALL trees of depth <= 2 "
                        "(evaluated on 16 assignments), every unary operator and leaf-binary operator on depth-2 trees (all of "
                        "them thorough, every 4th quick) compared by linear form mod p; operands re-inspected after every "
                        "operation; per backend: snarkjs, zkinterface x3 fields, qaptools Sig, recorder as control; "
